@@ -24,6 +24,7 @@ EXPLANATION = (
     " C01.h: the JSON envelope this library writes can be read back by it (rule shared with C10.F4)."
     " C01.i: which members are selectively disclosable is what the strategy designates: the path syntax and level / separator semantics of the strategy type (C05.P4 / P5) judged under C01."
     " C01.a also: every iteration of the array walk ends in a push, a digest lookup (directly or through a per-element helper whose None exits are reachable only through a lookup) or an Err, and every member whose name is not a marker is copied: no plain `null` / empty value is passed over (element-accounted, member-accounted). C01.i also covers the issuer's walk (child-accounted, shared with C05.P1)."
+    " C01.j: both parsers derive sign_alg the same way from the stored token (the sibling clause of C10.F2 judged under C01: a parser that loses the algorithm makes the verifier fall back to the default and reject honest credentials of that format)."
 )
 ASSUMPTIONS = [
     "only the three structural clauses are claimed; equality of verified_claims with the selected view is not decided by any static argument available here",
